@@ -34,13 +34,19 @@ THEOREMS = [
     "Opacus.C17.lambda_resume_continues",
     "Opacus.C17.exp_resume_counterexample",
     "Opacus.C17.resume_with_live_value",
+    # the tie to the source: Generated/Schedulers.lean is re-translated from opacus/schedulers/*.py on every run
+    "Opacus.C17.generated_getters_eq_model",
+    "Opacus.C17.generated_step_eq_model",
+    "Opacus.C17.generated_construct_eq_model",
+    "Opacus.C17.generated_default_last_epoch",
 ]
 RULE = (
     "case = (sigma0, C0, noise schedule, clip schedule, op sequence over {ns, cs, opt, save, restore}) drawn from VERIF_SEED; "
     "non-trivial iff the sequence contains a scheduler step that changes a live value AND a later optimizer step; "
     "distinct by (schedule kinds, op sequence)"
 )
-TRUSTED = ["closed forms are over exact commutative monoids; float rounding of repeated multiplication vs gamma**k is not modelled (the Float driver reproduces the repeated multiplication bit-for-bit)"]
+TRUSTED = ["the translator vharness/props/c17_trans.py (Python `ast` -> Lean text, ~200 lines; supported subset documented in its docstring, anything else is reported as a broken tie) is trusted to render the scheduler classes' getters, base-class step() and constructors faithfully; its output is ALSO run against the real objects by the behavioural correspondence",
+           "closed forms are over exact commutative monoids; float rounding of repeated multiplication vs gamma**k is not modelled (the Float driver reproduces the repeated multiplication bit-for-bit)"]
 PARTIAL = ["restore-from-state_dict: the live optimizer attribute is not part of any state_dict (finding D8); proved for Lambda from the next scheduler step on, counterexample for Exponential/Step"]
 
 LAMBDAS = {
@@ -282,7 +288,35 @@ def closed_form_oracle(case):
     return None
 
 
+def regenerate(ctx):
+    """§2.4(a): re-translate the scheduler classes of the tree under test into Generated/Schedulers.lean; if the text
+    changed, re-build and re-audit (the `generated_*_eq_model` theorems then have to go through for the new text)"""
+    import os
+
+    from . import c17_trans as T
+    try:
+        txt = T.translate()
+        ctx.extra["translator"] = "ok"
+    except T.Untranslatable as e:
+        txt = f"/-! GENERATED – the scheduler source is outside the translator's subset: {str(e)[:300].replace('-/', '- /')} -/\nnamespace Opacus.Generated.Sched\nend Opacus.Generated.Sched\n"
+        ctx.extra["translator"] = "untranslatable: " + str(e)[:300]
+        ctx.log("translator:", ctx.extra["translator"])
+    old = T.GEN_FILE.read_text() if T.GEN_FILE.exists() else None
+    ctx.extra["generated_schedulers"] = "unchanged" if old == txt else "CHANGED (re-proved)"
+    if old == txt:
+        return
+    foreign = os.path.realpath(str(core.REPO)) != "/repo"
+    try:
+        T.GEN_FILE.write_text(txt)
+        ctx.obligations = []
+        ctx.prove()
+    finally:
+        if foreign and old is not None:   # experiments on other checkouts must not leave their text in the shared library
+            T.GEN_FILE.write_text(old)
+
+
 def run(ctx):
+    regenerate(ctx)
     with rig.default_dtype(torch.float64):
         variant, val = detect_variant(ctx)
         ctx.variant["resume"] = variant
